@@ -355,6 +355,10 @@ def c10_programs(seed, tier):
     out.append(prog("two_visuals", [new(), image([rep("visual", 10, salt=1), rep("visual", 12, salt=2), rep("cylindrical", 5, radius=1.0, py=1.0, pw=1.0, ph=1.0)]), FIN]))
     out.append(prog("image_without_rep", [new(), image([]), pc(p0, 2), FIN]))
     out.append(prog("finalize_twice", [new(), pc(p0, 3), FIN, FIN]))
+    # content added after a finalize, then finalized again (the first XML becomes dead space); the GUID length shifts the XML end through all residues mod 4
+    for g in range(4):
+        out.append(prog(f"finalize_more_pc_{g}", [new("g" * (5 + g)), pc(p0, 3), FIN, pc(small_protos()[1], 5001 if g == 0 else 4, guid="later"), FIN]))
+        out.append(prog(f"finalize_more_blob_{g}", [new("g" * (5 + g)), blob(10, 1), FIN, blob(33, 2), image([rep("visual", 21, mask=3)]), FIN]))
     out.append(prog("empty_guid", [new(""), pc(p0, 3), FIN]))
     out.append(prog("empty_pc_guid", [new(), pc(p0, 3, guid=""), FIN]))
     return out
